@@ -127,9 +127,10 @@ impl<const N: usize> Sodg<N> {
     #[inline]
     pub fn put(&mut self, v: usize, d: &Hex) {
         let vtx = self.vertices.get_mut(v).unwrap();
+        let unread = vtx.persistence == Persistence::Stored;
         vtx.persistence = Persistence::Stored;
         vtx.data = d.clone();
-        if vtx.branch != BRANCH_STATIC {
+        if vtx.branch != BRANCH_STATIC && !unread {
             *self.stores.get_mut(vtx.branch).unwrap() += 1;
         }
         #[cfg(debug_assertions)]
